@@ -192,3 +192,24 @@ def root_rule(ctx, prop, which):
                 ok = isinstance(pay, tuple) and pay[0] == "enum" and pay[1].endswith("Validation") and pay[2] == [("errors",)]
                 if not ok:
                     ctx.violation(rid, key + "|payload", fi.file, fi.line, "%s validate() returns Err(%r), expected Err(Validation(self.errors.clone()))" % (which, pay))
+
+
+def ctrlrestore_rule(ctx, prop, which):
+    rid = "%s.ctrlrestore" % prop
+    ctx.rule(rid, "%s visit_control_operator: for every ControlOperator variant, target kind, classification outcome and document kind "
+                  "that the abstract run can follow, the mode flag self.state.ctrl is None again when the function returns Ok — a "
+                  "control left switched on leaks into the evaluation of the next alternative / sibling (pairing rule, abstract "
+                  "evaluation with scripted callees)" % which, floor=600)
+    rows = vt.ctrl_restore_table(ctx.facts, which)
+    seen = set()
+    for r in rows:
+        ctx.site(rid, r["key"], r["file"], r["line"], {"ctrl_after": r["ctrl_after"], "visits": r["visits"]})
+        if r["ctrl_after"] != "None":
+            k = r["key"].split("|doc=")[0]
+            if k in seen:
+                continue
+            seen.add(k)
+            ctx.violation(rid, k, r["file"], r["line"],
+                          "%s visit_control_operator(%s) returns Ok with self.state.ctrl = %s: the operator stays in force for whatever is "
+                          "validated next" % (which, r["key"], r["ctrl_after"]))
+    ctx.extra.setdefault("ctrlrestore_variants_followed", {})[which] = sorted({r["key"].split("|")[0] for r in rows})
